@@ -30,6 +30,8 @@ pub struct PoolCfg {
     pub encodings: Vec<TextEncoding>,
     pub quick_wall: f64,
     pub extra_bases: Vec<&'static str>,
+    /// explicit (edit budgets, merges) for every theme x base instead of the shared scale table
+    pub budgets: Option<(Vec<u8>, u8)>,
 }
 
 impl Default for PoolCfg {
@@ -42,6 +44,7 @@ impl Default for PoolCfg {
             encodings: vec![TextEncoding::UnicodeCodePoint],
             quick_wall: 45.0,
             extra_bases: vec![],
+            budgets: None,
         }
     }
 }
@@ -59,6 +62,13 @@ pub fn run_pool(prop: &str, args: &Args, level: &str, cfg: PoolCfg, oracle: Arc<
     let mut models = vec![];
     let scale = if args.thorough() { cfg.thorough_scale } else { cfg.quick_scale };
     let mut cfgs = super::history_configs(scale);
+    if let Some((edits, merges)) = &cfg.budgets {
+        for c in cfgs.iter_mut() {
+            c.2 = edits.clone();
+            c.3 = *merges;
+        }
+        cfgs.dedup();
+    }
     for b in cfg.extra_bases.iter() {
         for theme in ["map", "text"] {
             cfgs.push((theme, b, vec![1, 1], 1));
